@@ -81,7 +81,7 @@ pub struct GrindCase {
 
 /// Checksum (sum of 2^w-1 - digit) of the LM-OTS digest the verifier computes for `msg` under the
 /// forged triple `t` (single level), and its maximum.
-fn grind_sum(h: HashId, w: u32, t: &wire::Triple, msg: &[u8]) -> (u32, u32) {
+pub fn grind_sum(h: HashId, w: u32, t: &wire::Triple, msg: &[u8]) -> (u32, u32) {
     let n = h.n();
     let q = crate::refmodel::hash(h, &[&t.pk[12..28], &t.sig[4..8], &crate::refmodel::D_MESG, &t.sig[12..12 + n], msg]);
     let u = 8 * n / w as usize;
@@ -94,8 +94,14 @@ fn grind_sum(h: HashId, w: u32, t: &wire::Triple, msg: &[u8]) -> (u32, u32) {
 }
 
 /// Message counters with the highest and the lowest digest checksum among `cands` candidates.
-fn grind(h: HashId, w: u32, cands: u64) -> Vec<u64> {
+pub fn grind(h: HashId, w: u32, cands: u64) -> Vec<u64> {
     let t = wire::forge(h, &[(w, 5)], 1, 0x6a1d, 0);
+    grind_with(h, w, cands, &t)
+}
+
+/// Same search against the (I, q, C) of an arbitrary single-level triple.
+pub fn grind_with(h: HashId, w: u32, cands: u64, t: &wire::Triple) -> Vec<u64> {
+    let t = t.clone();
     let workers = crate::engine::WORKERS as u64;
     let best: std::sync::Mutex<Vec<(u32, u64)>> = std::sync::Mutex::new(Vec::new());
     std::thread::scope(|s| {
